@@ -1604,7 +1604,8 @@ class SchedFamily:
             mcs.append({"module": "GribiServerSched_MC", "constants": kw, "distinct_states": run.distinct, "generated": run.generated, "secs": round(run.secs, 1)})
         # schedules: every history of small instances (history kept in the fingerprint) + simulation of a rich one
         walks = []
-        exh = ([dict(LoVals=(1,), MaxMsgs=3), dict(LoVals=(1,), MaxMsgs=2, Prefix="takeover")] if quick else
+        exh = ([dict(LoVals=(1,), MaxMsgs=3), dict(LoVals=(1,), MaxMsgs=2, Prefix="takeover"),
+                dict(LoVals=(1, 2), MaxMsgs=3, WithFlush=True, MaxOpsPerReq=1, Sess=("s1",))] if quick else
                [dict(LoVals=(1, 2), MaxMsgs=3), dict(LoVals=(1,), MaxMsgs=4), dict(LoVals=(1,), MaxMsgs=3, Prefix="takeover"),
                 dict(LoVals=(1,), MaxMsgs=3, WithFlush=True, MaxOpsPerReq=1)])
         for kw in exh:
@@ -1725,6 +1726,8 @@ class ElectionProofFamily:
 
 for _p in ("C04", "C05"):
     REGISTRY[_p] = CompositeFamily(_p, [REGISTRY[_p], SchedFamily(_p)] + ([ElectionProofFamily(_p)] if _p == "C05" else []))
+# C08: the election gate of a Flush is decided once, whatever is announced while the Flush runs
+REGISTRY["C08"] = CompositeFamily("C08", REGISTRY["C08"].parts + [SchedFamily("C08")])
 
 
 # ---------------------------------------------------------------------------
